@@ -287,10 +287,57 @@ fn canon_of(hist: &[Act], r: &RunResult, bad: bool) -> (u64, u64) {
     (a, b)
 }
 
+// ---- hang watchdog for executions of the subject ------------------------------------------------
+static NEXT_SLOT: AtomicU64 = AtomicU64::new(0);
+static BUSY_SINCE: [AtomicU64; 128] = [const { AtomicU64::new(0) }; 128];
+static BUSY_WHAT: Mutex<Vec<String>> = Mutex::new(Vec::new());
+thread_local! { static MY_SLOT: usize = (NEXT_SLOT.fetch_add(1, Ordering::Relaxed) as usize) % 128; }
+
+fn now_ms() -> u64 {
+    std::time::SystemTime::now().duration_since(std::time::UNIX_EPOCH).map(|d| d.as_millis() as u64).unwrap_or(1)
+}
+
+/// An execution of the connection code that does not come back within `secs` seconds is reported
+/// as a violation (the scripted transports never block; every execution takes microseconds).
+pub fn start_hang_watchdog(property: &str, tier: crate::report::Tier, secs: u64) {
+    let property = property.to_string();
+    let _ = std::thread::spawn(move || loop {
+        std::thread::sleep(std::time::Duration::from_secs(1));
+        let now = now_ms();
+        for i in 0..128 {
+            let since = BUSY_SINCE[i].load(Ordering::Relaxed);
+            if since != 0 && now.saturating_sub(since) > secs * 1000 {
+                let what = BUSY_WHAT.lock().ok().and_then(|v| v.get(i).cloned()).unwrap_or_default();
+                let dir = std::path::PathBuf::from(crate::report::VERIF_DIR).join("replays").join(&property);
+                let _ = std::fs::create_dir_all(&dir);
+                let path = dir.join("does-not-terminate.json");
+                let sig = format!("{property}|does-not-terminate");
+                let _ = std::fs::write(&path, json!({"property": property, "signature": sig, "execution": what}).to_string());
+                println!("VIOLATION property={property} replay={}", path.display());
+                println!("  signature: {sig}");
+                println!("  witness:   the connection does not return on {what} ({secs} s; the scripted transport never blocks)");
+                let ev = json!({"property_id": property, "tier": tier.name(), "seed": 0, "level": "model_checking",
+                    "coverage": {"states": 1, "transitions": 1, "traces_validated_against_impl": 1, "samples": [what], "evaluations": 1, "distinct_nontrivial": 2, "exhaustive": false,
+                        "rule": "search cut short by an execution that does not terminate (see violations)"},
+                    "assumptions": [], "wall_s": secs as f64, "violations": 1});
+                let _ = std::fs::write(std::path::PathBuf::from(crate::report::VERIF_DIR).join("evidence").join(format!("{property}.json")), serde_json::to_string_pretty(&ev).unwrap());
+                std::process::exit(1);
+            }
+        }
+    });
+}
+
 impl E2Model {
     fn make_state(&self, inst_idx: u32, hist: Vec<Act>) -> St {
         let inst = &self.instances[inst_idx as usize];
+        let slot = MY_SLOT.with(|s| *s);
+        if let Ok(mut w) = BUSY_WHAT.lock() {
+            if w.len() < 128 { w.resize(128, String::new()); }
+            w[slot] = format!("{} with history {:?}", inst.label, hist);
+        }
+        BUSY_SINCE[slot].store(now_ms(), Ordering::Relaxed);
         let r = world::run(inst, &hist);
+        BUSY_SINCE[slot].store(0, Ordering::Relaxed);
         let _ = self.transitions.fetch_add(1, Ordering::Relaxed);
         let mut problems = (self.judge)(inst, &hist, &r);
         if let Some(e) = &r.harness_error {
